@@ -81,13 +81,24 @@ class Effects:
     def __init__(self, lib, cg):
         self.lib = lib
         self.cg = cg
-        self.summ = {}
-        self.unmodelled = set()
         self._callinfo = {}
         for k, lst in cg.calls.items():
             for (i, ts, ext, key) in lst:
                 self._callinfo[(k, i.id)] = (ts, ext, key)
+        # An integer loaded from caller-visible memory is taken to be a number, not a pointer in disguise, as long as no
+        # function of the library stores a pointer-derived integer into such memory (checked while analysing; if one does,
+        # the analysis is redone with every loaded 64-bit integer treated as a possible pointer).  Integer arithmetic on a
+        # ptrtoint result (alignment rounding) keeps the pointer's provenance in both modes.
+        self.precise_ints = True
+        self.laundering = []
+        self.summ = {}
+        self.unmodelled = set()
         self._run()
+        if self.laundering:
+            self.precise_ints = False
+            self.summ = {}
+            self.unmodelled = set()
+            self._run()
 
     # ---------------------------------------------------------------------------------------------
     def _run(self):
@@ -246,7 +257,10 @@ class Effects:
                         if align_sensitive(i.ty, i['align']):
                             note_aligned(a, i)
                         if tracks(i.ty):
-                            setp(i, dr(a))
+                            if i.ty.get('k') == 'int' and self.precise_ints:
+                                setp(i, {x for r in a if (r[0] == 'loc' or (r[0] == 'heap' and r[3] == 0)) for x in locstore[r]})
+                            else:
+                                setp(i, dr(a))
                     elif op == 'store':
                         a = cprov(i.ops[1])
                         note_write(a, i, 'store')
@@ -254,6 +268,9 @@ class Effects:
                             note_aligned(a, i)
                         if tracks(i['valty']):
                             v = cprov(i.ops[0])
+                            if v and i['valty'].get('k') == 'int' and self.precise_ints and \
+                                    any(x[0] in ('arg', 'glob', 'heap') for x in v) and any(r[0] != 'loc' for r in a):
+                                self.laundering.append((f.name, i.loc))
                             if v:
                                 for r in a:
                                     if r[0] == 'loc' or (r[0] == 'heap' and r[3] == 0):
